@@ -239,6 +239,14 @@ NAMING = {
     "message-keyword-in-snake-case": ('version: "3"\nstruct Switch { pressed @0: u1, count @1: u7, }\nimpl can for Switch { id: 17, device: "dash", }\n', [("dash", "Switch", {"pressed": 1, "count": 100}, "c9")]),
     "messages-equal-in-snake-case": ('version: "3"\nstruct MotorTemp { celsius @0: i12, }\nstruct motor_temp { raw @0: u16, }\nimpl can for MotorTemp { id: 100, device: "inv", }\nimpl can for motor_temp { id: 101, device: "inv", }\n', [("inv", "MotorTemp", {"celsius": -5}, "fb0f"), ("inv", "motor_temp", {"raw": 258}, "0201")]),
     "devices-equal-in-snake-case": ('version: "3"\nstruct M { a @0: u8, }\nstruct N { c @0: u16, }\nimpl can for M { id: 5, device: "Ecu", }\nimpl can for N { id: 6, device: "ecu", }\n', [("Ecu", "M", {"a": 7}, "07"), ("ecu", "N", {"c": 258}, "0201")]),
+    "enumerators-equal-in-upper-case": ('version: "3"\nenum Unit { mV = 0, MV = 1, }\nstruct M { u @0: Unit, raw @1: u8, }\nimpl can for M { id: 12, device: "ecu", }\n', [("ecu", "M", {"u": 1, "raw": 171}, "5701")]),
+    "message-leading-underscore": ('version: "3"\nstruct _2ndStatus { a @0: u8, b @1: i12, }\nstruct _ { c @0: u8, }\nimpl can for _2ndStatus { id: 10, device: "ecu", }\nimpl can for _ { id: 11, device: "ecu", }\n', [("ecu", "_2ndStatus", {"a": 7, "b": -3}, "07fd0f"), ("ecu", "_", {"c": 9}, "09")]),
+    "message-underscore-vs-plain": ('version: "3"\nstruct Foo { a @0: u8, }\nstruct _Foo { b @0: u16, }\nimpl can for Foo { id: 20, device: "ecu", }\nimpl can for _Foo { id: 21, device: "ecu", }\n', [("ecu", "Foo", {"a": 7}, "07"), ("ecu", "_Foo", {"b": 258}, "0201")]),
+    # frame ids at and beyond the 11 bits of CanFrame.id: refused, or carried exactly
+    "id-2047": ('version: "3"\nstruct M { a @0: u8, }\nimpl can for M { id: 2047, device: "ecu", }\n', [("ecu", "M", {"a": 7}, "07")], {"id": 2047}),
+    "id-2048": ('version: "3"\nstruct M { a @0: u8, }\nimpl can for M { id: 2048, device: "ecu", }\n', [("ecu", "M", {"a": 7}, "07")], {"id": 2048, "may_refuse": True}),
+    "id-extended": ('version: "3"\nstruct M { a @0: u8, }\nstruct N { b @0: u8, }\nimpl can for N { id: 229, device: "ecu", }\nimpl can for M { id: 419385573, device: "ecu", }\n', [("ecu", "M", {"a": 7}, "07")], {"id": 419385573, "may_refuse": True}),
+    "id-negative": ('version: "3"\nstruct M { a @0: u8, }\nimpl can for M { id: -1, device: "ecu", }\n', [("ecu", "M", {"a": 7}, "07")], {"id": -1, "may_refuse": True}),
     "nested-and-array-names": ('version: "3"\nstruct In { v @0: u4, w @1: u4, }\nstruct M { in_ @0: In, arr @1: [u8, 2], }\nimpl can for M { id: 14, device: "ecu", }\n', [("ecu", "M", {"in__v": 1, "in__w": 2, "arr_0": 3, "arr_1": 4}, "210304")]),
 }
 
@@ -249,7 +257,9 @@ def run_naming(S, tier):
     from fcp.parser import get_fcp_from_string
     from fcp.error import Logger
 
-    for label, (text, msgs) in NAMING.items():
+    for label, entry in NAMING.items():
+        text, msgs = entry[0], entry[1]
+        opts = entry[2] if len(entry) > 2 else {}
         S.count("states")
         S.count("transitions")
         S.add("nontrivial", ("naming", label))
@@ -261,6 +271,9 @@ def run_naming(S, tier):
             try:
                 files = cbuild.generate_c(fcp, work)
             except Exception as e:  # noqa
+                if opts.get("may_refuse"):
+                    S.add("outcomes", ("naming-refused", label))
+                    continue
                 S.violation("C06.generate", "C06.generate/exception:%s/naming:%s" % (type(e).__name__, label), inp, expected="C sources", actual=str(e)[:200])
                 continue
             devices = sorted({d for d, _m, _v, _x in msgs})
@@ -307,6 +320,10 @@ def run_naming(S, tier):
                 for typ, (v, data) in exp.items():
                     S.count("executions")
                     got = enc.get(typ)
+                    if got is not None and "id" in opts and got[0] != opts["id"]:
+                        S.add("outcomes", "naming-id-differs")
+                        S.violation("C06.encode", "C06.encode/frame-id-differs/naming:%s" % label, dict(inp, device=dev, message=typ), expected={"id": opts["id"]}, actual={"id": got[0]})
+                        continue
                     if got is None or got[1] != len(data) or got[2][: len(data)] != data or dec.get(typ) != v:
                         S.add("outcomes", "naming-differs")
                         S.violation("C06.encode", "C06.encode/data-or-value-differs/naming:%s" % label, dict(inp, device=dev, message=typ, value=v), expected={"dlc": len(data), "data": data, "decoded": v}, actual={"frame": got, "decoded": dec.get(typ)})
